@@ -694,7 +694,7 @@ func TestC12(t *testing.T) {
 	concurrentStack(run)
 	run.Require("api_cases", int64(n))
 	run.Require("stack_valid_cases", int64(rep.Pick(350, 5000)/map[bool]int{true: 5, false: 1}[rep.Mode() == "race"]))
-	run.Require("stack_concurrent_cases", int64(rep.Pick(800, 12000)/map[bool]int{true: 3, false: 1}[rep.Mode() == "race"]))
+	run.Require("stack_concurrent_cases", int64(rep.Pick(800, 12000)/map[bool]int{true: 6, false: 1}[rep.Mode() == "race"]))
 	run.Require("stack_invalid_cases", int64(rep.Pick(80, 1000)/map[bool]int{true: 5, false: 1}[rep.Mode() == "race"]))
 	run.Finish(t)
 }
